@@ -8,6 +8,17 @@ for d in sorted(os.listdir(os.path.join(V, "seeded"))):
     if not os.path.exists(mp):
         continue
     m = json.load(open(mp))
+    if d.startswith("harmless_"):
+        np_ = os.path.join(V, "seeded", d, "notes.md")
+        first = ""
+        if os.path.exists(np_):
+            first = next((l.strip("# ").strip() for l in open(np_, errors="replace").read().split("\n") if l.strip()), "")
+        fa = m.get("false_alarms") or {}
+        ran = m.get("checks_run") or []
+        verdict = (f"quiet: {len(ran)} check(s) run ({', '.join(ran) if len(ran) < 20 else 'all twenty'}), no alarm" if not fa
+                   else "FALSE ALARM from " + ", ".join(sorted(fa)))
+        rows.append(f"| {d} | behaviour-preserving refactoring: {first[:130].replace('|', '/')} | {verdict} |")
+        continue
     notes = m.get("needs_to_manifest", "")
     first = next((l.strip("# ").strip() for l in notes.split("\n") if l.strip()), "")
     det = []
